@@ -8,6 +8,10 @@
 #define protected public
 #include <primesieve/Erat.hpp>
 #include <primesieve/MemoryPool.hpp>
+#include <primesieve/IteratorHelper.hpp>
+#include <primesieve/PrimeGenerator.hpp>
+#include <primesieve/iterator.hpp>
+#include <primesieve/pmath.hpp>
 #undef private
 #undef protected
 #include "common.hpp"
@@ -23,6 +27,13 @@ int main()
       Erat e;
       e.init(u64(t[1]), u64(t[2]), u64(t[3]), pool);
       std::cout << e.segmentLow_ << " " << e.segmentHigh_ << " " << e.sieve_.size() << " " << e.maxEratSmall_ << " " << e.maxEratMedium_ << std::endl;
+    } else if (t.size() >= 3 && t[0] == "NBUF") {
+      // forward buffer after the first generate_next_primes() of iterator(start, hint):
+      // "<buffer size (Vector::size)> <size_> <chunk stop> <primeCountUpper(start, stop)>"
+      primesieve::iterator it(u64(t[1]), u64(t[2]));
+      try { it.generate_next_primes(); } catch (const std::exception&) { std::cout << "exc" << std::endl; continue; }
+      auto& d = *(IteratorData*) it.memory_;
+      std::cout << d.primes.size() << " " << it.size_ << " " << d.stop << " " << primeCountUpper(it.start_, d.stop) << std::endl;
     } else std::cout << "?" << std::endl;
   }
 }
